@@ -1,5 +1,6 @@
 import GoDcp.Proofs.LifeLemmas
 import GoDcp.Driver.Life
+import GoDcp.Props.C11
 /-!
 # C11 — rebalance converges to the latest assignment, once, without stopping the client
 (run level: all op lists, all delays / tick sizes / vBucket ranges; `Model/Life.lean`)
@@ -204,5 +205,691 @@ theorem rebalance_never_stops_client {s : LSt} {ops : List LOp} (h : Inv s) (hok
   split at h2
   · rename_i hp; exact ⟨p1, h1, hp⟩
   · cases h2
+
+/-! ## shape of a cycle -/
+
+/-- the `Rebalance()` that opens a window closes the stream exactly once: `BRS BSP closereq… ASP ARS` with one
+    close request per open vBucket stream and no `stop` (the `wait()` goroutine sees `balancing`) -/
+theorem window_open_shape {s : LSt} (a : Nat) (hn : s.obsNil = false) (hb : s.balancing = false)
+    (hd : s.dead = false) :
+    (rebalanceLocked s a).2 =
+      [.cb .BRS, .cb .BSP] ++ s.pos.map (fun (vb, _) => LObs.closereq vb) ++ [.cb .ASP, .cb .ARS] := by
+  rw [rebalanceLocked_streaming s a hn hb hd]
+  obtain ⟨o2, o4, ho, h2, h4⟩ := closeCore_out { s with lockHeld := true, balancing := true } false
+  have e2 : o2 = [] := by rcases h2 with h | ⟨_, h⟩; exact h; cases h
+  have e4 : o4 = [] := by rcases h4 with h | ⟨_, h⟩; exact h; cases h
+  subst e2 e4
+  show [LObs.cb .BRS] ++ (closeCore _ false).2 ++ [LObs.cb .ARS] = _
+  rw [ho]
+  simp
+
+/-! ## `reopen_uses_latest_membership` -/
+
+/-- **C11 `reopen_uses_latest_membership`** (every state, hence every firing in every run). When the reopen
+    timer fires, `rebalance()` requests exactly the vBuckets `memLo … memHi` of the membership value
+    current AT THAT FIRING, each exactly once and in order, each from the seq stored for it at that moment
+    (0 if none); whatever follows (a queued `Rebalance()` call taking the lock) contains no open request. -/
+theorem reopen_uses_latest_membership (s : LSt) (a : Nat) :
+    ∃ rest, (rebalanceFires s a).2 =
+      [.cb .BRE, .cb .BSS] ++ (vbs s.memLo s.memHi).map (fun vb => LObs.openreq vb ((s.store.get? vb).getD 0))
+        ++ [.cb .ASS, .cb .ARE] ++ rest ∧ ∀ x ∈ rest, CloseAlpha x := by
+  by_cases hq : s.queuedCalls > 0
+  · rw [rebalanceFires_queued s a hq, doOpen_out]
+    exact ⟨(rebalanceLocked (reopened s (s.queuedCalls - 1)) a).2, by simp, rebalanceLocked_alpha' _ a⟩
+  · rw [rebalanceFires_plain s a (by omega), doOpen_out]
+    exact ⟨[], by simp, by simp⟩
+
+/-- the same at the level of the timer firing: marking the timer as fired changes neither the membership
+    value nor the stored checkpoints -/
+theorem reopen_uses_latest_membership_fire (s : LSt) {t : Timer} (hk : t.kind = .reb) :
+    ∃ rest, (fireOne s t).2 =
+      [.cb .BRE, .cb .BSS] ++ (vbs s.memLo s.memHi).map (fun vb => LObs.openreq vb ((s.store.get? vb).getD 0))
+        ++ [.cb .ASS, .cb .ARE] ++ rest ∧ ∀ x ∈ rest, CloseAlpha x := by
+  rw [fireOne_reb s hk]
+  exact reopen_uses_latest_membership (setTimer s { t with pending := false }) t.deadline
+
+/-- the requested vBuckets are exactly those of the range, each once -/
+theorem reopen_range (lo hi : Nat) : (vbs lo hi).Nodup ∧ ∀ vb, vb ∈ vbs lo hi ↔ lo ≤ vb ∧ vb ≤ hi :=
+  ⟨vbs_nodup lo hi, fun _ => mem_vbs⟩
+
+/-- the new session (no queued call): range = membership at the firing, positions = stored seqs, count = size -/
+theorem reopen_session (s : LSt) (a : Nat) (hq : s.queuedCalls = 0) :
+    (rebalanceFires s a).1.lo = s.memLo ∧ (rebalanceFires s a).1.hi = s.memHi ∧
+    (rebalanceFires s a).1.pos = (vbs s.memLo s.memHi).map (fun vb => (vb, (s.store.get? vb).getD 0)) ∧
+    (rebalanceFires s a).1.active = ((vbs s.memLo s.memHi).length : Int) := by
+  rw [rebalanceFires_plain s a hq]
+  exact ⟨rfl, rfl, rfl, rfl⟩
+
+/-! ## `reopen_after_quiet_delay` -/
+
+/-- **C11 `reopen_after_quiet_delay`, first arm.** The `Rebalance()` that closes a streaming stream at time
+    `a` arms the reopen timer at `a + delay` – at `a + 0` for dynamic membership – and that is the only
+    pending reopen timer. -/
+theorem window_opens_with_delay {s : LSt} (a : Nat) (hn : s.obsNil = false) (hb : s.balancing = false)
+    (hd : s.dead = false) (hnr : NoReb s) :
+    ∀ t ∈ (rebalanceLocked s a).1.timers, t.pending = true → t.kind = .reb →
+      t.deadline = a + (if s.dynamic then 0 else s.delay) := by
+  rw [rebalanceLocked_streaming s a hn hb hd]
+  intro t ht hp hk
+  rcases mem_armTimer.1 ht with ht | rfl
+  · simp only [closeCore_timers] at ht
+    have := hnr t ht hp
+    rw [this] at hk; cases hk
+  · rfl
+
+/-- **C11 `reopen_after_quiet_delay`, debounce.** Every notification processed inside the window at time `a`
+    (bus, API, or a `Rebalance` timer at its due time) moves the deadline of the pending reopen timer to
+    `a + delay`: the reopen fires only after `delay` has elapsed since the LAST such notification
+    (`fire_needs_due`). The debounce always uses `delay`, also for dynamic membership. -/
+theorem notify_in_window_postpones {s : LSt} (a : Nat) (ok : TimersOk s) (hB : PhB s) :
+    (callRebalance s a).2 = [.debounced] ∧ PhB (callRebalance s a).1 ∧
+    ∀ t ∈ (callRebalance s a).1.timers, t.pending = true → t.kind = .reb → t.deadline = a + s.delay := by
+  obtain ⟨t0, ht0, hptr, hpend, hkind, hdb, hB', _⟩ := debounce_window a ok hB
+  obtain ⟨r, hr, _, _, _, huniq⟩ := hB.2
+  have e : callRebalance s a = (setTimer s { t0 with deadline := a + s.delay }, [.debounced]) := by
+    simp only [callRebalance, hdb]
+  rw [e]
+  refine ⟨rfl, hB', ?_⟩
+  intro t ht hp hk
+  rcases mem_setTimer ht with ⟨rfl, _⟩ | ⟨ht, hne⟩
+  · rfl
+  · have h1 := huniq t ht hp hk
+    have h2 := huniq t0 ht0 hpend hkind
+    exact absurd (by rw [h1, h2]) hne
+
+/-- a timer fires in `fireDue upto` only if it is pending and its deadline is `≤ upto`; a `tick d` uses
+    `upto = now + d`, the end of every other op uses `upto = now` -/
+theorem fire_needs_due {s : LSt} {upto : Nat} {t : Timer} (h : dueTimer s upto = some t) :
+    t ∈ s.timers ∧ t.pending = true ∧ t.deadline ≤ upto := dueTimer_some h
+
+/-- while nothing is due nothing fires: the window stays closed until the clock reaches the deadline -/
+theorem nothing_fires_before_deadline (s : LSt) (upto fuel : Nat)
+    (h : ∀ t ∈ s.timers, t.pending = true → upto < t.deadline) : fireDue upto fuel s = (s, []) := by
+  apply fireDue_of_none
+  cases hdue : dueTimer s upto with
+  | none => rfl
+  | some t =>
+    obtain ⟨ht, hp, hle⟩ := dueTimer_some hdue
+    have := h t ht hp
+    omega
+
+/-! ## `one_cycle_per_burst_partial` -/
+
+/-- **KF F5 classifier** on the trace: some notification blocked on `rebalanceLock` (it found
+    `rebalanceTimer == nil`, or a timer pointer that matches no timer, while a `Rebalance()` held the lock) -/
+def KF_C11_first_timer_nil (tr : List (List LObs)) : Bool := tr.any fun o => o.contains .queued
+
+/-- second classifier: some notification found the old timer already fired and re-armed it with `Rebalance`
+    as callback (`AfterFunc(delay, s.Rebalance)`); that timer is a notification source of its own -/
+def KF_C11_timer_reassigned (tr : List (List LObs)) : Bool := tr.any fun o => o.contains .reassigned
+
+def isNotif : LOp → Bool
+  | .notify | .notifyApi | .notifyDuringClose _ => true
+  | _ => false
+
+/-- a burst starts: a notification op is processed while the stream is streaming (phase A) -/
+def startsBurst (s : LSt) (op : LOp) : Bool :=
+  isNotif op && s.isOpen && !s.balancing && !s.dead && !s.stopClosed
+
+/-- number of bursts of a run (op-list level): every further notification that arrives before the reopen
+    finds `isOpen = false` and belongs to the burst that closed the stream -/
+def burstStarts (s : LSt) : List LOp → Nat
+  | [] => 0
+  | op :: r => (if startsBurst s op then 1 else 0) + burstStarts (step s op).1 r
+
+def brs (o : List LObs) : Nat := o.count (.cb .BRS)
+def bre (o : List LObs) : Nat := o.count (.cb .BRE)
+
+/-- no call is queued on the lock and every pending timer is a reopen timer -/
+def QZ (s : LSt) : Prop := s.queuedCalls = 0 ∧ ∀ t ∈ s.timers, t.pending = true → t.kind = .reb
+
+def Calm (o : List LObs) : Prop := LObs.queued ∉ o ∧ LObs.reassigned ∉ o
+
+theorem brs_append (a b : List LObs) : brs (a ++ b) = brs a + brs b := by simp [brs, List.count_append]
+theorem bre_append (a b : List LObs) : bre (a ++ b) = bre a + bre b := by simp [bre, List.count_append]
+
+theorem brs_zero_of_not_mem {o : List LObs} (h : LObs.cb .BRS ∉ o) : brs o = 0 := List.count_eq_zero.2 h
+theorem bre_zero_of_not_mem {o : List LObs} (h : LObs.cb .BRE ∉ o) : bre o = 0 := List.count_eq_zero.2 h
+
+/-- 1 inside a rebalance window, 0 otherwise -/
+def Bn (s : LSt) : Nat := if s.balancing then 1 else 0
+
+/-- cycle accounting of a sub-step: it starts `X` cycles (`BRS`), and every cycle that was open at the start
+    or was started is either completed by a `BRE` or still open at the end -/
+def Cyc (X : Nat) (s : LSt) (o : List LObs) (s' : LSt) : Prop := brs o = X ∧ bre o + Bn s' = Bn s + X
+
+theorem Cyc.trans {X : Nat} {s s1 s2 : LSt} {o1 o2 : List LObs} (h1 : Cyc X s o1 s1) (h2 : Cyc 0 s1 o2 s2) :
+    Cyc X s (o1 ++ o2) s2 := by
+  obtain ⟨a1, b1⟩ := h1
+  obtain ⟨a2, b2⟩ := h2
+  refine ⟨by rw [brs_append, a1, a2]; rfl, ?_⟩
+  rw [bre_append]; omega
+
+/-- a sub-step that emits neither `BRS` nor `BRE` and leaves `balancing` alone -/
+theorem Cyc.idle {s s' : LSt} {o : List LObs} (h1 : LObs.cb .BRS ∉ o) (h2 : LObs.cb .BRE ∉ o)
+    (hb : s'.balancing = s.balancing) : Cyc 0 s o s' :=
+  ⟨brs_zero_of_not_mem h1, by rw [bre_zero_of_not_mem h2]; simp [Bn, hb]⟩
+
+theorem closeCore_mem (s : LSt) (c : Bool) {x : LObs} (hx : x ∈ (closeCore s c).2) :
+    x = .cb .BSP ∨ (∃ vb, x = .closereq vb) ∨ x = .stop ∨ x = .cb .ASP := by
+  obtain ⟨o2, o4, ho, h2, h4⟩ := closeCore_out s c
+  rw [ho] at hx
+  simp only [List.mem_append, List.mem_cons, List.mem_map, List.not_mem_nil, or_false] at hx
+  rcases hx with (((rfl | ⟨p, _, rfl⟩) | hx) | rfl) | hx
+  · exact Or.inl rfl
+  · exact Or.inr (Or.inl ⟨_, rfl⟩)
+  · rcases h2 with rfl | ⟨rfl, _⟩ <;> simp_all
+  · exact Or.inr (Or.inr (Or.inr rfl))
+  · rcases h4 with rfl | ⟨rfl, _⟩ <;> simp_all
+
+theorem closeCore_no_cycle_cb (s : LSt) (c : Bool) :
+    LObs.cb .BRS ∉ (closeCore s c).2 ∧ LObs.cb .BRE ∉ (closeCore s c).2 := by
+  constructor <;> intro hx <;> rcases closeCore_mem s c hx with h | ⟨_, h⟩ | h | h <;> cases h
+
+theorem doOpen_no_cycle_cb (s : LSt) : LObs.cb .BRS ∉ (doOpen s).2 ∧ LObs.cb .BRE ∉ (doOpen s).2 := by
+  rw [doOpen_out]; simp
+
+/-- the closing `Rebalance()` from a streaming state: one `BRS`, nothing queued, `QZ` kept -/
+theorem rebalanceLocked_calm {s : LSt} (a : Nat) (hn : s.obsNil = false) (hb : s.balancing = false)
+    (hd : s.dead = false) (hq : QZ s) :
+    Cyc 1 s (rebalanceLocked s a).2 (rebalanceLocked s a).1 ∧ QZ (rebalanceLocked s a).1 := by
+  rw [rebalanceLocked_streaming s a hn hb hd]
+  obtain ⟨c1, c2⟩ := closeCore_no_cycle_cb { s with lockHeld := true, balancing := true } false
+  refine ⟨⟨?_, ?_⟩, ?_, ?_⟩
+  · show brs ([.cb .BRS] ++ (closeCore _ false).2 ++ [.cb .ARS]) = 1
+    rw [brs_append, brs_append, brs_zero_of_not_mem c1]; rfl
+  · show bre ([.cb .BRS] ++ (closeCore _ false).2 ++ [.cb .ARS]) + _ = _
+    rw [bre_append, bre_append, bre_zero_of_not_mem c2]
+    simp [Bn, hb, armTimer, bre]
+  · simp [armTimer, hq.1]
+  · intro t ht hp
+    rcases mem_armTimer.1 ht with ht | rfl
+    · simp only [closeCore_timers] at ht; exact hq.2 t ht hp
+    · rfl
+
+theorem debounce_window_calm {s : LSt} (a : Nat) (ok : TimersOk s) (hB : PhB s) (hq : QZ s) :
+    Cyc 0 s (callRebalance s a).2 (callRebalance s a).1 ∧ QZ (callRebalance s a).1 := by
+  obtain ⟨t0, ht0, _, hpend, hkind, hdb, _, _⟩ := debounce_window a ok hB
+  have e : callRebalance s a = (setTimer s { t0 with deadline := a + s.delay }, [.debounced]) := by
+    simp only [callRebalance, hdb]
+  rw [e]
+  refine ⟨Cyc.idle (by simp) (by simp) rfl, hq.1, ?_⟩
+  intro t ht hp
+  rcases mem_setTimer ht with ⟨rfl, _⟩ | ⟨ht, _⟩
+  · exact hkind
+  · exact hq.2 t ht hp
+
+/-- under `QZ` the only timer that can fire is the reopen timer of the window, and it reopens without a
+    queued call: no `BRS`, one `BRE` per window left, `QZ` kept -/
+theorem fireDue_calm (upto fuel : Nat) {s : LSt} (h : Inv s) (hq : QZ s)
+    (halive : (fireDue upto fuel s).1.dead = false) :
+    QZ (fireDue upto fuel s).1 ∧ Cyc 0 s (fireDue upto fuel s).2 (fireDue upto fuel s).1 := by
+  induction fuel generalizing s with
+  | zero => exact ⟨hq, Cyc.idle (by simp [fireDue_zero]) (by simp [fireDue_zero]) rfl⟩
+  | succ fuel ih =>
+    rw [fireDue_succ] at halive ⊢
+    cases hd : s.dead with
+    | true => simp only [if_true]; exact ⟨hq, Cyc.idle (by simp) (by simp) rfl⟩
+    | false =>
+      simp only [hd, Bool.false_eq_true, if_false] at halive ⊢
+      cases hdue : dueTimer s upto with
+      | none => exact ⟨hq, Cyc.idle (by simp) (by simp) rfl⟩
+      | some t =>
+        simp only [hdue] at halive ⊢
+        obtain ⟨ht, hp, _⟩ := dueTimer_some hdue
+        have hk := hq.2 t ht hp
+        have g1 := fireOne_good h hd ht hp
+        have hB : PhB s := by
+          cases h with
+          | dead hx => rw [hd] at hx; cases hx
+          | pre _ _ h => have := h.noReb t ht hp; rw [hk] at this; cases this
+          | A _ _ h => have := h.noReb t ht hp; rw [hk] at this; cases this
+          | C _ _ h => have := h.noReb t ht hp; rw [hk] at this; cases this
+          | B _ _ h => exact h
+        have e : fireOne s t = (reopened (setTimer s { t with pending := false }) (setTimer s { t with pending := false }).queuedCalls,
+            [.cb .BRE] ++ (doOpen (setTimer s { t with pending := false })).2 ++ [.cb .ARE]) := by
+          rw [fireOne_reb s hk, rebalanceFires_plain (setTimer s { t with pending := false }) t.deadline hq.1]
+        have hq1 : QZ (fireOne s t).1 := by
+          rw [e]
+          refine ⟨hq.1, ?_⟩
+          intro u hu hup
+          rcases mem_setTimer hu with ⟨rfl, _⟩ | ⟨hu, _⟩
+          · simp at hup
+          · exact hq.2 u hu hup
+        have hc1 : Cyc 0 s (fireOne s t).2 (fireOne s t).1 := by
+          rw [e]
+          obtain ⟨c1, c2⟩ := doOpen_no_cycle_cb (setTimer s { t with pending := false })
+          refine ⟨?_, ?_⟩
+          · show brs ([.cb .BRE] ++ (doOpen _).2 ++ [.cb .ARE]) = 0
+            rw [brs_append, brs_append, brs_zero_of_not_mem c1]; rfl
+          · show bre ([.cb .BRE] ++ (doOpen _).2 ++ [.cb .ARE]) + _ = _
+            rw [bre_append, bre_append, bre_zero_of_not_mem c2]
+            simp [Bn, hB.1.balancing, reopened, bre]
+        obtain ⟨i1, i2⟩ := ih g1.inv hq1 halive
+        exact ⟨i1, hc1.trans i2⟩
+
+/-- under `QZ` only a window has a pending timer -/
+theorem no_pending_of_QZ {s : LSt} (h : Inv s) (hd : s.dead = false) (hq : QZ s) (hb : s.balancing = false) :
+    ∀ t ∈ s.timers, t.pending = false := by
+  intro t ht
+  cases hp : t.pending with
+  | false => rfl
+  | true =>
+    have hk := hq.2 t ht hp
+    have hno : NoReb s := by
+      cases h with
+      | dead hx => rw [hd] at hx; cases hx
+      | pre _ _ h => exact h.noReb
+      | A _ _ h => exact h.noReb
+      | C _ _ h => exact h.noReb
+      | B _ _ h => rw [h.1.balancing] at hb; cases hb
+    have := hno t ht hp
+    rw [hk] at this; cases this
+
+theorem dueTimer_none_of_no_pending {s : LSt} (upto : Nat) (h : ∀ t ∈ s.timers, t.pending = false) :
+    dueTimer s upto = none := by
+  cases hdue : dueTimer s upto with
+  | none => rfl
+  | some t =>
+    obtain ⟨ht, hp, _⟩ := dueTimer_some hdue
+    rw [h t ht] at hp; cases hp
+
+/-- under `QZ` one unit of fuel is enough: after `fireDue` nothing is due any more (at most the one reopen
+    timer of the window was pending), and the clock is untouched -/
+theorem fireDue_calm_settled (upto fuel : Nat) {s : LSt} (h : Inv s) (hq : QZ s)
+    (halive : (fireDue upto (fuel + 1) s).1.dead = false) :
+    dueTimer (fireDue upto (fuel + 1) s).1 upto = none ∧ (fireDue upto (fuel + 1) s).1.now = s.now := by
+  rw [fireDue_succ] at halive ⊢
+  cases hd : s.dead with
+  | true => simp only [hd, if_true] at halive; cases halive
+  | false =>
+    simp only [hd, Bool.false_eq_true, if_false] at halive ⊢
+    cases hdue : dueTimer s upto with
+    | none => exact ⟨hdue, rfl⟩
+    | some t =>
+      simp only [hdue] at halive ⊢
+      obtain ⟨ht, hp, _⟩ := dueTimer_some hdue
+      have hk := hq.2 t ht hp
+      have g1 := fireOne_good h hd ht hp
+      have e : fireOne s t = (reopened (setTimer s { t with pending := false }) (setTimer s { t with pending := false }).queuedCalls,
+          [.cb .BRE] ++ (doOpen (setTimer s { t with pending := false })).2 ++ [.cb .ARE]) := by
+        rw [fireOne_reb s hk, rebalanceFires_plain (setTimer s { t with pending := false }) t.deadline hq.1]
+      have hq1 : QZ (fireOne s t).1 := by
+        rw [e]
+        refine ⟨hq.1, ?_⟩
+        intro u hu hup
+        rcases mem_setTimer hu with ⟨rfl, _⟩ | ⟨hu, _⟩
+        · simp at hup
+        · exact hq.2 u hu hup
+      have hd1 : (fireOne s t).1.dead = false := by rw [e]; exact hd
+      have hb1 : (fireOne s t).1.balancing = false := by rw [e]; rfl
+      have hn1 : (fireOne s t).1.now = s.now := by rw [e]; rfl
+      have hnone := dueTimer_none_of_no_pending upto (no_pending_of_QZ g1.inv hd1 hq1 hb1)
+      rw [fireDue_of_none _ _ _ hnone]
+      exact ⟨hnone, hn1⟩
+
+theorem listenEnd_ctl (s : LSt) (vb : Nat) (c : EndCause) :
+    (listenEnd s vb c).1.timers = s.timers ∧ (listenEnd s vb c).1.queuedCalls = s.queuedCalls ∧
+    (listenEnd s vb c).1.balancing = s.balancing := by
+  simp only [listenEnd, waitFires]
+  (repeat' split) <;> exact ⟨rfl, rfl, rfl⟩
+
+theorem evStep_ctl (s : LSt) (vb : Nat) :
+    (evStep s vb).1.timers = s.timers ∧ (evStep s vb).1.queuedCalls = s.queuedCalls ∧
+    (evStep s vb).1.balancing = s.balancing := by
+  simp only [evStep]
+  (repeat' split) <;> exact ⟨rfl, rfl, rfl⟩
+
+theorem QZ.congr {s s' : LSt} (h : QZ s) (e1 : s'.queuedCalls = s.queuedCalls) (e2 : s'.timers = s.timers) : QZ s' :=
+  ⟨e1 ▸ h.1, fun t ht => h.2 t (e2 ▸ ht)⟩
+
+/-- in the middle of the closing `Rebalance()` (no pending timer at all) an overlapping notification either
+    queues (F5) or re-arms the fired timer -/
+theorem absorb_not_calm {s : LSt} (a : Nat) (hM : PhM s) (hq : QZ s) :
+    LObs.queued ∈ (absorb s a).2 ∨ LObs.reassigned ∈ (absorb s a).2 := by
+  rcases hp : s.timerPtr with _ | id
+  · rw [absorb, debounce_no_ptr a hp]; exact Or.inl (by simp)
+  · rcases hf : findTimer s id with _ | t
+    · rw [absorb, debounce_no_timer a id hp hf]; exact Or.inl (by simp)
+    · have ⟨htm, _⟩ := findTimer_some hf
+      rcases hpend : t.pending with _ | _
+      · rw [absorb, debounce_fired a id hM.1.balancing hp hf hpend]; exact Or.inr (by simp)
+      · have h1 := hq.2 t htm hpend
+        have h2 := hM.2 t htm hpend
+        rw [h1] at h2; cases h2
+
+theorem X_of_starts {s : LSt} {op : LOp} (h : startsBurst s op = true) : (if startsBurst s op then 1 else 0) = 1 := by
+  simp [h]
+
+theorem stepCore_calm {s : LSt} (op : LOp) (h : Inv s) (hd : s.dead = false) (hig : ignored s op = false)
+    (hopen : OpenOk s op) (hq : QZ s) (hcalm : Calm (stepCore s op).2) (halive : (stepCore s op).1.dead = false) :
+    QZ (stepCore s op).1 ∧ Cyc (if startsBurst s op then 1 else 0) s (stepCore s op).2 (stepCore s op).1 := by
+  have notifA : ∀ (hA : PhA s),
+      Cyc 1 s (rebalanceLocked s s.now).2 (rebalanceLocked s s.now).1 ∧ QZ (rebalanceLocked s s.now).1 :=
+    fun hA => rebalanceLocked_calm s.now hA.obsNil hA.balancing hd hq
+  cases op with
+  | member lo hi => exact ⟨hq.congr rfl rfl, Cyc.idle (by simp [stepCore]) (by simp [stepCore]) rfl⟩
+  | setStore vb q => exact ⟨hq.congr rfl rfl, Cyc.idle (by simp [stepCore]) (by simp [stepCore]) rfl⟩
+  | query => exact ⟨hq, Cyc.idle (by simp [stepCore]) (by simp [stepCore]) rfl⟩
+  | «open» => exact ⟨hq.congr rfl rfl, Cyc.idle (doOpen_no_cycle_cb s).1 (doOpen_no_cycle_cb s).2 rfl⟩
+  | notify =>
+    have hst : s.stopClosed = false := ignored_false_stop hig (by simp)
+    cases h with
+    | dead hx => rw [hd] at hx; cases hx
+    | pre _ _ h =>
+      have : (stepCore s .notify).1.dead = true := by
+        show (callRebalance s s.now).1.dead = true
+        rw [callRebalance_streaming s.now h.balancing h.lockHeld, rebalanceLocked_closed s _ h.obsNil h.balancing]
+      rw [this] at halive; cases halive
+    | C _ _ h =>
+      have : (stepCore s .notify).1.dead = true := by
+        show (callRebalance s s.now).1.dead = true
+        rw [callRebalance_streaming s.now h.balancing h.lockHeld, rebalanceLocked_closed s _ h.obsNil h.balancing]
+      rw [this] at halive; cases halive
+    | A _ _ hA =>
+      show QZ (callRebalance s s.now).1 ∧ Cyc _ s (callRebalance s s.now).2 (callRebalance s s.now).1
+      rw [callRebalance_streaming s.now hA.balancing hA.lockHeld,
+        X_of_starts (by simp [startsBurst, isNotif, hA.isOpen, hA.balancing, hd, hst])]
+      exact ⟨(notifA hA).2, (notifA hA).1⟩
+    | B _ ok hB =>
+      obtain ⟨h1, h2⟩ := debounce_window_calm s.now ok hB hq
+      have : startsBurst s .notify = false := by simp [startsBurst, hB.isOpen]
+      rw [this]
+      exact ⟨h2, h1⟩
+  | notifyApi =>
+    have hst : s.stopClosed = false := ignored_false_stop hig (by simp)
+    by_cases ho : s.isOpen = true
+    · have hA := h.phA hd ho
+      have e : stepCore s .notifyApi = callRebalance s s.now := by simp [stepCore, ho]
+      rw [e, callRebalance_streaming s.now hA.balancing hA.lockHeld,
+        X_of_starts (by simp [startsBurst, isNotif, hA.isOpen, hA.balancing, hd, hst])]
+      exact ⟨(notifA hA).2, (notifA hA).1⟩
+    · have e : stepCore s .notifyApi = (s, [.skipped]) := by simp [stepCore, ho]
+      have : startsBurst s .notifyApi = false := by simp [startsBurst, ho]
+      rw [e, this]
+      exact ⟨hq, Cyc.idle (by simp) (by simp) rfl⟩
+  | notifyDuringClose k =>
+    have hst : s.stopClosed = false := ignored_false_stop hig (by simp)
+    cases h with
+    | dead hx => rw [hd] at hx; cases hx
+    | pre _ _ h =>
+      have : (stepCore s (.notifyDuringClose k)).1.dead = true := by
+        show (notifyOverlapped s k).1.dead = true
+        rw [notifyOverlapped_closed s k h.balancing h.lockHeld h.obsNil]
+      rw [this] at halive; cases halive
+    | C _ _ h =>
+      have : (stepCore s (.notifyDuringClose k)).1.dead = true := by
+        show (notifyOverlapped s k).1.dead = true
+        rw [notifyOverlapped_closed s k h.balancing h.lockHeld h.obsNil]
+      rw [this] at halive; cases halive
+    | B _ ok hB =>
+      obtain ⟨t0, _, _, _, _, hdb, _, _⟩ := debounce_window s.now ok hB
+      have e : stepCore s (.notifyDuringClose k) = callRebalance s s.now := by
+        show notifyOverlapped s k = _
+        simp only [notifyOverlapped, callRebalance, hdb]
+      have : startsBurst s (.notifyDuringClose k) = false := by simp [startsBurst, hB.isOpen]
+      rw [e, this]
+      obtain ⟨h1, h2⟩ := debounce_window_calm s.now ok hB hq
+      exact ⟨h2, h1⟩
+    | A _ ok hA =>
+      have hcalm' : Calm (notifyOverlapped s k).2 := hcalm
+      rw [notifyOverlapped_streaming s k hA.balancing hA.lockHeld hA.obsNil] at hcalm'
+      have hk : k = 0 := by
+        cases k with
+        | zero => rfl
+        | succ k =>
+          exfalso
+          have hM := PhM_after_close hA.everOpened hA.noReb
+          have hqc : QZ (closeCore { s with lockHeld := true, balancing := true } false).1 :=
+            ⟨by simp [hq.1], fun t ht hp => hq.2 t (by simpa using ht) hp⟩
+          have := absorb_not_calm s.now hM hqc
+          rw [duringClose_succ] at hcalm'
+          rcases this with hx | hx
+          · exact hcalm'.1 (by simp [hx])
+          · exact hcalm'.2 (by simp [hx])
+      subst hk
+      have e : stepCore s (.notifyDuringClose 0) = rebalanceLocked s s.now := by
+        show notifyOverlapped s 0 = _
+        rw [notifyOverlapped_streaming s 0 hA.balancing hA.lockHeld hA.obsNil,
+          rebalanceLocked_streaming s s.now hA.obsNil hA.balancing hd]
+        simp [duringClose]
+      rw [e, X_of_starts (by simp [startsBurst, isNotif, hA.isOpen, hA.balancing, hd, hst])]
+      exact ⟨(notifA hA).2, (notifA hA).1⟩
+  | tick d =>
+    have halive' : (fireDue (s.now + d) 64 s).1.dead = false := halive
+    obtain ⟨h1, h2⟩ := fireDue_calm (s.now + d) 64 h hq halive'
+    exact ⟨h1.congr rfl rfl, h2⟩
+  | endEv vb c =>
+    obtain ⟨e1, e2, e3⟩ := listenEnd_ctl s vb c
+    refine ⟨hq.congr e2 e1, Cyc.idle (s' := (listenEnd s vb c).1) (o := (listenEnd s vb c).2) ?_ ?_ e3⟩
+    · intro hx; rcases listenEnd_alpha s vb c _ hx with ⟨h, _⟩ | ⟨_, h⟩ | ⟨_, h⟩ <;> cases h
+    · intro hx; rcases listenEnd_alpha s vb c _ hx with ⟨h, _⟩ | ⟨_, h⟩ | ⟨_, h⟩ <;> cases h
+  | ev vb =>
+    obtain ⟨e1, e2, e3⟩ := evStep_ctl s vb
+    refine ⟨hq.congr e2 e1, Cyc.idle (s' := (evStep s vb).1) (o := (evStep s vb).2) ?_ ?_ e3⟩
+    · intro hx; obtain ⟨_, h, _⟩ := evStep_alpha s vb _ hx; cases h
+    · intro hx; obtain ⟨_, h, _⟩ := evStep_alpha s vb _ hx; cases h
+  | save =>
+    have e := saveStep_fields s
+    obtain ⟨w, hw⟩ := saveStep_out s
+    refine ⟨hq.congr e.queuedCalls e.timers, Cyc.idle (s' := (saveStep s).1) (o := (saveStep s).2) ?_ ?_ e.balancing⟩
+    · rw [hw]; simp
+    · rw [hw]; simp
+  | shutdown c =>
+    rw [stepCore_shutdown] at halive ⊢
+    have e := finalSave_fields s
+    obtain ⟨w, hw⟩ := finalSave_out s
+    by_cases hn : (finalSave s).1.obsNil = true
+    · rw [closeOp_nil _ c hn] at halive; cases halive
+    · rw [closeOp_open _ c (by simpa using hn)]
+      obtain ⟨c1, c2⟩ := closeCore_no_cycle_cb (finalSave s).1 c
+      refine ⟨hq.congr ((closeCore_queuedCalls _ c).trans e.queuedCalls) ((closeCore_timers _ c).trans e.timers),
+        Cyc.idle (s' := (closeCore (finalSave s).1 c).1) (o := (finalSave s).2 ++ (closeCore (finalSave s).1 c).2)
+          ?_ ?_ ((closeCore_balancing _ c).trans e.balancing)⟩
+      · rw [hw]; intro hx; rcases List.mem_append.1 hx with hx | hx
+        · simp at hx
+        · exact c1 hx
+      · rw [hw]; intro hx; rcases List.mem_append.1 hx with hx | hx
+        · simp at hx
+        · exact c2 hx
+
+theorem Calm.left {a b : List LObs} (h : Calm (a ++ b)) : Calm a :=
+  ⟨fun hx => h.1 (List.mem_append_left _ hx), fun hx => h.2 (List.mem_append_left _ hx)⟩
+
+/-- one op under `QZ` with a calm output: `QZ` again; the step emits one `BRS` iff it starts a burst, and the
+    cycle accounting holds -/
+theorem step_calm {s : LSt} (op : LOp) (h : Inv s) (hopen : OpenOk s op) (hq : QZ s) (hcalm : Calm (step s op).2)
+    (halive : (step s op).1.dead = false) :
+    QZ (step s op).1 ∧ Cyc (if startsBurst s op then 1 else 0) s (step s op).2 (step s op).1 := by
+  rw [step_eq] at hcalm halive ⊢
+  by_cases hd : s.dead = true
+  · rw [if_pos hd]
+    have : startsBurst s op = false := by simp [startsBurst, hd]
+    rw [this]
+    exact ⟨hq, Cyc.idle (by simp) (by simp) rfl⟩
+  · rw [if_neg hd] at hcalm halive ⊢
+    have hd' : s.dead = false := by simpa using hd
+    by_cases hi : ignored s op = true
+    · rw [if_pos hi]
+      have hst : s.stopClosed = true := by simp [ignored] at hi; exact hi.1
+      have : startsBurst s op = false := by simp [startsBurst, hst]
+      rw [this]
+      exact ⟨hq, Cyc.idle (by simp) (by simp) rfl⟩
+    · rw [if_neg hi] at hcalm halive ⊢
+      have hi' : ignored s op = false := by simpa using hi
+      have g := stepCore_good op h hd' hopen
+      have g2 := fireDue_good (stepCore s op).1.now 64 g.inv
+      have ha1 : (stepCore s op).1.dead = false := by
+        cases hx : (stepCore s op).1.dead with
+        | false => rfl
+        | true => rw [g2.mono hx] at halive; cases halive
+      obtain ⟨q1, b1⟩ := stepCore_calm op h hd' hi' hopen hq hcalm.left ha1
+      obtain ⟨q2, b2⟩ := fireDue_calm (stepCore s op).1.now 64 g.inv q1 halive
+      exact ⟨q2, b1.trans b2⟩
+
+/-- **fuel suffices on calm runs**: under `QZ`, after a live step with a calm output nothing is due – the state
+    is `Settled` (the hypothesis of the clean-shutdown theorems of C13) -/
+theorem step_calm_settled {s : LSt} (op : LOp) (h : Inv s) (hopen : OpenOk s op) (hq : QZ s)
+    (hs : Settled s) (hcalm : Calm (step s op).2) (halive : (step s op).1.dead = false) : Settled (step s op).1 := by
+  rw [step_eq] at hcalm halive ⊢
+  by_cases hd : s.dead = true
+  · rw [if_pos hd]; exact hs
+  · rw [if_neg hd] at hcalm halive ⊢
+    have hd' : s.dead = false := by simpa using hd
+    by_cases hi : ignored s op = true
+    · rw [if_pos hi]; exact hs
+    · rw [if_neg hi] at hcalm halive ⊢
+      have hi' : ignored s op = false := by simpa using hi
+      have g := stepCore_good op h hd' hopen
+      have g2 := fireDue_good (stepCore s op).1.now 64 g.inv
+      have ha1 : (stepCore s op).1.dead = false := by
+        cases hx : (stepCore s op).1.dead with
+        | false => rfl
+        | true => rw [g2.mono hx] at halive; cases halive
+      obtain ⟨q1, _⟩ := stepCore_calm op h hd' hi' hopen hq hcalm.left ha1
+      obtain ⟨h1, h2⟩ := fireDue_calm_settled (stepCore s op).1.now 63 g.inv q1 halive
+      show dueTimer _ _ = none
+      rw [h2]; exact h1
+
+theorem run_calm {s : LSt} {ops : List LOp} (h : Inv s) (hok : OpsOk s ops) (hq : QZ s)
+    (hcalm : ∀ o ∈ runTrace s ops, Calm o) (halive : (run s ops).dead = false) :
+    QZ (run s ops) ∧ brs (runTrace s ops).flatten = burstStarts s ops ∧
+      bre (runTrace s ops).flatten + Bn (run s ops) = Bn s + burstStarts s ops := by
+  induction ops generalizing s with
+  | nil => exact ⟨hq, rfl, by simp [runTrace_nil, run_nil, burstStarts, bre]⟩
+  | cons op r ih =>
+    rw [run_cons] at halive ⊢
+    rw [runTrace_cons] at hcalm ⊢
+    have g := step_good op h hok.1
+    have ha1 : (step s op).1.dead = false := by
+      cases hx : (step s op).1.dead with
+      | false => rfl
+      | true => rw [dead_run _ r hx, hx] at halive; cases halive
+    obtain ⟨q1, b1, c1⟩ := step_calm op h hok.1 hq (hcalm _ List.mem_cons_self) ha1
+    obtain ⟨q2, b2, c2⟩ := ih g.inv hok.2 q1 (fun o ho => hcalm o (List.mem_cons_of_mem _ ho)) halive
+    refine ⟨q2, by rw [List.flatten_cons, brs_append, b1, b2]; rfl, ?_⟩
+    rw [List.flatten_cons, bre_append]
+    simp only [burstStarts]
+    omega
+
+/-- along a calm live run from a settled `QZ` state every reached state is settled -/
+theorem run_calm_settled {s : LSt} {ops : List LOp} (h : Inv s) (hok : OpsOk s ops) (hq : QZ s) (hs : Settled s)
+    (hcalm : ∀ o ∈ runTrace s ops, Calm o) (halive : (run s ops).dead = false) : Settled (run s ops) := by
+  induction ops generalizing s with
+  | nil => exact hs
+  | cons op r ih =>
+    rw [run_cons] at halive ⊢
+    rw [runTrace_cons] at hcalm
+    have g := step_good op h hok.1
+    have ha1 : (step s op).1.dead = false := by
+      cases hx : (step s op).1.dead with
+      | false => rfl
+      | true => rw [dead_run _ r hx, hx] at halive; cases halive
+    obtain ⟨q1, _⟩ := step_calm op h hok.1 hq (hcalm _ List.mem_cons_self) ha1
+    exact ih g.inv hok.2 q1 (step_calm_settled op h hok.1 hq hs (hcalm _ List.mem_cons_self) ha1)
+      (fun o ho => hcalm o (List.mem_cons_of_mem _ ho)) halive
+
+theorem calm_of_KF {tr : List (List LObs)} (h1 : KF_C11_first_timer_nil tr = false)
+    (h2 : KF_C11_timer_reassigned tr = false) : ∀ o ∈ tr, Calm o := by
+  intro o ho
+  simp only [KF_C11_first_timer_nil, KF_C11_timer_reassigned, List.any_eq_false] at h1 h2
+  exact ⟨by simpa using h1 o ho, by simpa using h2 o ho⟩
+
+/-- **C11 `one_cycle_per_burst_partial`.** Start before `Open` with no timer pending, call `Open`, run any op
+    list. If no notification ever queues on the lock (`¬KF_C11_first_timer_nil`, F5) and none re-arms a fired
+    timer (`¬KF_C11_timer_reassigned`) and the run does not fail-stop, then the number of close/reopen cycles
+    started (`BRS`) equals the number of bursts (notifications that arrive while streaming; every other
+    notification of a burst arrives while the stream is closed and only postpones the reopen), and every
+    cycle is completed by exactly one reopen (`BRE`) except the one still open at the end. -/
+theorem one_cycle_per_burst_partial {s0 : LSt} (hd : s0.dead = false) (ok : TimersOk s0) (hpre : PhPre s0)
+    (hnt : ∀ t ∈ s0.timers, t.pending = false) (ops : List LOp) (hno : NoOpen ops)
+    (hkf1 : KF_C11_first_timer_nil (runTrace s0 (LOp.open :: ops)) = false)
+    (hkf2 : KF_C11_timer_reassigned (runTrace s0 (LOp.open :: ops)) = false)
+    (halive : (run s0 (LOp.open :: ops)).dead = false) :
+    brs (runTrace s0 (LOp.open :: ops)).flatten = burstStarts s0 (LOp.open :: ops) ∧
+    bre (runTrace s0 (LOp.open :: ops)).flatten + (if (run s0 (LOp.open :: ops)).balancing then 1 else 0)
+      = burstStarts s0 (LOp.open :: ops) := by
+  have hok := OpsOk_open hpre.everOpened hno
+  have hinv : Inv s0 := .pre hd ok hpre
+  have hq : QZ s0 := ⟨hpre.queued, fun t ht hp => by rw [hnt t ht] at hp; cases hp⟩
+  obtain ⟨_, hb, hc⟩ := run_calm hinv hok hq (calm_of_KF hkf1 hkf2) halive
+  refine ⟨hb, ?_⟩
+  have : Bn s0 = 0 := by simp [Bn, hpre.balancing]
+  rw [this] at hc
+  simpa [Bn] using hc
+
+/-- tie to the counter used by the first-layer refutation `one_cycle_per_burst_full_refuted` -/
+theorem countBRE_eq_bre (tr : List (List LObs)) : countBRE tr = bre tr.flatten := by
+  simp [countBRE, bre, List.count, List.countP_eq_length_filter]
+
+/-- the hypotheses are satisfiable and the counts are as stated: two bursts, two cycles -/
+example :
+    let s0 : LSt := { memLo := 0, memHi := 1, delay := 250 }
+    let ops : List LOp := [.notify, .tick 200, .notify, .tick 200, .notifyApi, .tick 300, .notify, .notify, .tick 300]
+    KF_C11_first_timer_nil (runTrace s0 (.open :: ops)) = false ∧
+    KF_C11_timer_reassigned (runTrace s0 (.open :: ops)) = false ∧
+    burstStarts s0 (.open :: ops) = 2 ∧ brs (runTrace s0 (.open :: ops)).flatten = 2 ∧
+    bre (runTrace s0 (.open :: ops)).flatten = 2 := by decide
+
+/-- **second multi-cycle pattern (dynamic membership).** After an earlier rebalance, one notification that
+    is overlapped by one more during `Close` re-arms the fired timer with `Rebalance` as callback
+    (`reassigned`); dynamic membership reopens at once, so that timer later fires on the streaming stream
+    and starts a second full close/reopen cycle for the same burst. -/
+theorem one_cycle_per_burst_reassigned_refuted :
+    let s0 : LSt := { memLo := 0, memHi := 0, delay := 250, dynamic := true }
+    let ops : List LOp := [.notify, .tick 10, .notifyDuringClose 1, .tick 300]
+    KF_C11_first_timer_nil (runTrace s0 (.open :: ops)) = false ∧
+    KF_C11_timer_reassigned (runTrace s0 (.open :: ops)) = true ∧
+    burstStarts s0 (.open :: ops) = 2 ∧ brs (runTrace s0 (.open :: ops)).flatten = 3 := by decide
+
+/-! ## a rebalance never kills the client (run form) -/
+
+/-- **C11 `rebalance_never_stops_client`** (run form, `WaitPrompt`). `Open`, then any op list that contains no
+    second `Open`, no shutdown, and transient ends only for vBuckets of the session current at that moment
+    (`BenignRun`): whatever the notifications, bursts, overlaps, delays and tick sizes, the client never
+    fail-stops, is always either streaming or inside a rebalance window, and `stopCh` is closed only by a
+    final stream end that brings the active count to zero (`stop_only_by_end_or_shutdown`). The real F9a
+    (a re-open retry loop spanning a rebalance `Close`) lies below the granularity of this model. -/
+theorem rebalance_never_kills_client {s0 : LSt} (hd : s0.dead = false) (ok : TimersOk s0) (hpre : PhPre s0)
+    (ops : List LOp) (hb : BenignRun (step s0 .open).1 ops) :
+    Running (run s0 (LOp.open :: ops)) ∧ ∀ w, LObs.failstop w ∉ (runTrace s0 (LOp.open :: ops)).flatten := by
+  obtain ⟨hr, hi⟩ := open_running hd ok hpre
+  have hrun : Running (run s0 (LOp.open :: ops)) := by
+    rw [run_cons]; exact run_running hi hr hb
+  refine ⟨hrun, ?_⟩
+  intro w hw
+  have hok : OpsOk s0 (LOp.open :: ops) := ⟨fun _ => hpre.everOpened, hb.opsOk⟩
+  have := (dead_iff_failstop (.pre hd ok hpre) hd hok).2 ⟨w, hw⟩
+  rw [hrun.1] at this; cases this
+
+/-- **the steps that can fail-stop a running client** (complete list): only a shutdown (inside a rebalance
+    window: F4, characterised in `Props/C13Run.lean`; or with a `Rebalance` timer already due) and a transient
+    end of a vBucket that is not assigned to the current session (`reopen_missing_offset_failstop`). Every other
+    fail-stop of the model is a call on a stream that was never opened or is already shut down
+    (`Rebalance()` / `Close()` in the phases before `Open` and C). -/
+theorem failstop_cases {s : LSt} {op : LOp} (h : Inv s) (hr : Running s) (hno : op ≠ .open)
+    (hx : (step s op).1.dead = true) :
+    (∃ c, op = .shutdown c) ∨ ∃ vb, op = .endEv vb .transient ∧ s.isOpen = true ∧ ¬ (s.lo ≤ vb ∧ vb ≤ s.hi) := by
+  by_cases h1 : ∃ c, op = .shutdown c
+  · exact Or.inl h1
+  · by_cases h2 : ∃ vb, op = .endEv vb .transient ∧ s.isOpen = true ∧ ¬ (s.lo ≤ vb ∧ vb ≤ s.hi)
+    · exact Or.inr h2
+    · exfalso
+      have hb : Benign s op := by
+        refine ⟨hno, fun c e => h1 ⟨c, e⟩, ?_⟩
+        intro vb e ho
+        apply Decidable.byContradiction
+        intro hn
+        exact h2 ⟨vb, e, ho, hn⟩
+      have := (step_running op h hr hb).1
+      rw [hx] at this; cases this
+
+/-- non-vacuity of `BenignRun`: a burst, a membership change, events, a transient and a final end -/
+example :
+    let s0 : LSt := { memLo := 0, memHi := 1, delay := 100 }
+    let ops : List LOp := [.ev 0, .notify, .member 2 3, .notifyDuringClose 1, .tick 150, .tick 150, .ev 2,
+      .endEv 2 .transient, .endEv 3 .final]
+    (runTrace s0 (.open :: ops)).getLast? = some [] ∧ (run s0 (.open :: ops)).active = 1 ∧
+    (run s0 (.open :: ops)).lo = 2 ∧ (run s0 (.open :: ops)).rebalances = 1 := by decide
 
 end GoDcp.Life
